@@ -36,6 +36,8 @@ Definition rmsg (r : row) : pbval str :=
   | RTriple ws wp wo => PMsg "RdfStreamRow" [("triple"%string, triple_msg ws wp wo)]
   | RQuad ws wp wo wg => PMsg "RdfStreamRow" [("quad"%string, quad_msg ws wp wo wg)]
   | RNamespace name p n => ns_msg name p n
+  | RGraphStart w => PMsg "RdfStreamRow" [("graph_start"%string, put_opt 3 w (PMsg "RdfGraphStart" []))]
+  | RGraphEnd => PMsg "RdfStreamRow" [("graph_end"%string, PMsg "RdfGraphEnd" [])]
   | _ => msg_of_row r
   end.
 
